@@ -1,4 +1,3 @@
-from html import escape
 from protocol_code_generator.generate.code_block import CodeBlock
 from protocol_code_generator.generate.object_code_generator import FieldData
 from protocol_code_generator.type.basic_type import BasicType
@@ -11,7 +10,7 @@ from protocol_code_generator.type.integer_type import IntegerType
 from protocol_code_generator.type.length import Length
 from protocol_code_generator.type.string_type import StringType
 from protocol_code_generator.type.struct_type import StructType
-from protocol_code_generator.util.docstring_utils import generate_docstring
+from protocol_code_generator.util.docstring_utils import docstring_text, generate_docstring
 from protocol_code_generator.util.number_utils import try_parse_int
 
 
@@ -313,7 +312,7 @@ class FieldCodeGenerator:
         result = CodeBlock()
 
         if self._comment is not None:
-            lines = map(str.strip, escape(self._comment, quote=False).split('\n'))
+            lines = map(str.strip, docstring_text(self._comment).split('\n'))
             for line in lines:
                 if not result.empty:
                     result.add(' ')
